@@ -75,6 +75,7 @@ const (
 	ResumeUnexpected
 	ResumeClose
 	ResumeNoPrevid   // <resumed/> without previd: confirms no particular session
+	ResumeStreamEnd  // </stream:stream> in answer to <resume/> (the TCP connection is closed right after)
 	ResumeUnreadable // a well-formed element the stream parser itself rejects (scr.ResumeAlt picks which)
 )
 
@@ -590,6 +591,10 @@ func (sc *SrvConn) handle(it *Item) {
 		case ResumeUnexpected:
 			sc.Send("<message xmlns='jabber:client'><body>what?</body></message>")
 		case ResumeClose:
+			sc.Close()
+		case ResumeStreamEnd:
+			sc.Send("</stream:stream>")
+			sc.e.Yield("srv.closing")
 			sc.Close()
 		case ResumeNoPrevid:
 			sc.Send(fmt.Sprintf("<resumed xmlns='%s' h='0'/>", nsSM))
